@@ -143,10 +143,22 @@ def run_recognise(case):
         return
     hits = []
     for i, name in enumerate(short):
-        if not isinstance(name, str) or "|" in name:
+        if not isinstance(name, str):
+            continue
+        # every returned shorthand name -- and each half of a polychord name -- is accepted by construction
+        for part in (name.split("|") if "|" in name else [name]):
+            rebuilt, eb = call(chords.from_shorthand, part)
+            S.trans(1)
+            if eb is not None:
+                S.problem("from_shorthand(%r) of a name returned by determine(%r, shorthand=True)" % (part, rot),
+                          "accepted", err_name(eb), tags=tags)
+        if "|" in name:
+            whole, ew = call(chords.from_shorthand, name)
+            if ew is not None:
+                S.problem("from_shorthand(%r) of a polychord name returned by determine(%r, shorthand=True)" % (name, rot),
+                          "accepted", err_name(ew), tags=tags)
             continue
         rebuilt, eb = call(chords.from_shorthand, name)
-        S.trans(1)
         if eb is None and rebuilt == chord:
             hits.append(i)
     if not hits:
